@@ -110,6 +110,12 @@ func runC03(c *c03Case, r *rng) string {
 	cl := newSimCluster(c.nnodes)
 	defer cl.close()
 	cl.setLayout(c.layout)
+	if c.nnodes > 1 && r.chance(1, 3) {
+		// one node is merely suspected by the others ("fail?" in their CLUSTER NODES): it owns and serves its slots all the same
+		cl.mu.Lock()
+		cl.suspect = map[int]bool{r.intn(c.nnodes): true}
+		cl.mu.Unlock()
+	}
 	for i, d := range c.delays {
 		if i < len(cl.nodes) {
 			cl.nodes[i].delayMs = d
